@@ -476,6 +476,8 @@ package impl
 //@   ensures len(input) == 0 && len(args) == 1 ==> err == nil && len(res) == 0
 //@   ensures ok && len(args) == 1 && evalErr(args[0], K, N, input) == nil && len(tv) == 0 ==> err == nil && len(res) == 0
 //@   ensures ok && len(args) == 1 && tOk ==> err == nil && len(res) == 1 && res[0] == mkInt(rindexS(s, t))
+// C07: an argument that evaluates to empty never produces a value
+//@   ensures len(input) == 1 && len(args) == 1 && evalErr(args[0], ctx.ExternalConstants, ctx.Now, input) == nil && len(evalRes(args[0], ctx.ExternalConstants, ctx.Now, input)) == 0 ==> err != nil || len(res) == 0
 //@   assigns ctx.LastResult, ctx.BeforeLastResult
 //
 //@ func StartsWith(ctx, input, args) (res, err)
@@ -490,6 +492,8 @@ package impl
 //@   let tOk = evalErr(args[0], K, N, input) == nil && len(tv) == 1 && fromOk(tv[0]) && isStringV(fromS(tv[0]))
 //@   ensures len(input) == 0 && len(args) == 1 ==> err == nil && len(res) == 0
 //@   ensures ok && len(args) == 1 && tOk ==> err == nil && collTV(res) == ite(strprefix(t, s), TV_T, TV_F)
+// C07: an argument that evaluates to empty never produces a value
+//@   ensures len(input) == 1 && len(args) == 1 && evalErr(args[0], ctx.ExternalConstants, ctx.Now, input) == nil && len(evalRes(args[0], ctx.ExternalConstants, ctx.Now, input)) == 0 ==> err != nil || len(res) == 0
 //@   assigns ctx.LastResult, ctx.BeforeLastResult
 //
 //@ func EndsWith(ctx, input, args) (res, err)
@@ -504,6 +508,8 @@ package impl
 //@   let tOk = evalErr(args[0], K, N, input) == nil && len(tv) == 1 && fromOk(tv[0]) && isStringV(fromS(tv[0]))
 //@   ensures len(input) == 0 && len(args) == 1 ==> err == nil && len(res) == 0
 //@   ensures ok && len(args) == 1 && tOk ==> err == nil && collTV(res) == ite(strsuffix(t, s), TV_T, TV_F)
+// C07: an argument that evaluates to empty never produces a value
+//@   ensures len(input) == 1 && len(args) == 1 && evalErr(args[0], ctx.ExternalConstants, ctx.Now, input) == nil && len(evalRes(args[0], ctx.ExternalConstants, ctx.Now, input)) == 0 ==> err != nil || len(res) == 0
 //@   assigns ctx.LastResult, ctx.BeforeLastResult
 //
 //@ func Contains(ctx, input, args) (res, err)
@@ -518,12 +524,29 @@ package impl
 //@   let tOk = evalErr(args[0], K, N, input) == nil && len(tv) == 1 && fromOk(tv[0]) && isStringV(fromS(tv[0]))
 //@   ensures len(input) == 0 && len(args) == 1 ==> err == nil && len(res) == 0
 //@   ensures ok && len(args) == 1 && tOk ==> err == nil && collTV(res) == ite(strcontains(s, t), TV_T, TV_F)
+// C07: an argument that evaluates to empty never produces a value
+//@   ensures len(input) == 1 && len(args) == 1 && evalErr(args[0], ctx.ExternalConstants, ctx.Now, input) == nil && len(evalRes(args[0], ctx.ExternalConstants, ctx.Now, input)) == 0 ==> err != nil || len(res) == 0
 //@   assigns ctx.LastResult, ctx.BeforeLastResult
 //
 //@ func Replace(ctx, input, args) (res, err)
 //@   requires ctx != nil && validColl(input)
 //@   requires forall k int :: 0 <= k && k < len(args) ==> args[k] != nil
+//@   let K = ctx.ExternalConstants
+//@   let N = ctx.Now
+//@   let s = unbox(fromS(input[0]), system.String)
+//@   let ok = len(input) == 1 && fromOk(input[0]) && isStringV(fromS(input[0]))
+//@   let pv = evalRes(args[0], K, N, input)
+//@   let pat = unbox(fromS(pv[0]), system.String)
+//@   let pOk = evalErr(args[0], K, N, input) == nil && len(pv) == 1 && fromOk(pv[0]) && isStringV(fromS(pv[0]))
+//@   let sv = evalRes(args[1], K, N, input)
+//@   let sub = unbox(fromS(sv[0]), system.String)
+//@   let sOk = evalErr(args[1], K, N, input) == nil && len(sv) == 1 && fromOk(sv[0]) && isStringV(fromS(sv[0]))
 //@   ensures len(input) == 0 && len(args) == 2 ==> err == nil && len(res) == 0
+// C14: every occurrence of a non-empty pattern is replaced, left to right, nothing else changes
+//@   ensures ok && len(args) == 2 && pOk && sOk && pat != "" ==> err == nil && len(res) == 1 && res[0] == box(system.String(strreplaceall(s, pat, sub)))
+// C07: a pattern or substitution that evaluates to empty gives empty
+//@   ensures ok && len(args) == 2 && evalErr(args[0], K, N, input) == nil && len(pv) == 0 ==> err == nil && len(res) == 0
+//@   ensures ok && len(args) == 2 && pOk && evalErr(args[1], K, N, input) == nil && len(sv) == 0 ==> err == nil && len(res) == 0
 //@   assigns ctx.LastResult, ctx.BeforeLastResult
 //
 // ---- C13: conversion functions ------------------------------------------------------------------
@@ -538,6 +561,10 @@ package impl
 //@   ensures len(input) == 1 && len(args) == 0 ==> err == nil
 //@   ensures err == nil ==> len(res) <= 1 && (len(res) == 1 ==> isKind(0, res[0]))
 //@   ensures len(input) == 1 && len(args) == 0 && fromOk(input[0]) && isKind(0, fromS(input[0])) ==> err == nil && len(res) == 1 && res[0] == fromS(input[0])
+// an Integer converts exactly when it is 0 or 1
+//@   ensures len(input) == 1 && len(args) == 0 && fromOk(input[0]) && isInteger(fromS(input[0])) && intOf(fromS(input[0])) == 1 ==> len(res) == 1 && res[0] == box(system.Boolean(true))
+//@   ensures len(input) == 1 && len(args) == 0 && fromOk(input[0]) && isInteger(fromS(input[0])) && intOf(fromS(input[0])) == 0 ==> len(res) == 1 && res[0] == box(system.Boolean(false))
+//@   ensures len(input) == 1 && len(args) == 0 && fromOk(input[0]) && isInteger(fromS(input[0])) && intOf(fromS(input[0])) != 0 && intOf(fromS(input[0])) != 1 ==> len(res) == 0
 //@   assigns nothing
 //
 //@ func ConvertsToBoolean(ctx, input, args) (res, err)
